@@ -16,7 +16,17 @@ Tie to the real code (every run):
 * **Inv on the implementation**: whenever the model says the stamp is current, every cache entry of the real
   object must equal the view of a freshly constructed neuron;
 * **oracle** (the property): every value returned by a read, and all views at the end of a history, equal those
-  of `navis.TreeNeuron(x.nodes.copy())`.
+  of `navis.TreeNeuron(x.nodes.copy())`;
+* **result oracle** for `@lock_neuron` operations (they read the cached graphs under the lock, where the staleness
+  wrapper is skipped): the RESULT of reroot / subset / dist_between / dist_to_root / distal_to / segment_length on
+  the used neuron equals the result of the same call on a neuron freshly built from the same table (finding
+  `lock_neuron/no-staleness-check-before-lock`, fixed 4ae1633);
+* **bystanders**: every object a history leaves behind (the original after `copy` / an out-of-place operation, or the
+  copy when the history continues on the original; both sides of a pickle round trip) is watched: whatever happens
+  to the other object afterwards, its views must keep equal those of a fresh neuron built from ITS table (finding
+  `reroot_skeleton(networkx)/edits-_graph_nx-in-place`, fixed 7a5fe2d);
+* **checksum resolution** (seeded change C02_4): forests with ids above 2**24 / 2**31 / 2**53, float32 / float64 tables,
+  edits that move a parent link to a neighbouring id or a coordinate by less than float32 resolution.
 """
 import warnings, pickle, hashlib, random, json, copy as _copy
 import numpy as np
@@ -35,6 +45,8 @@ SIG_SIMPLE = 'TreeNeuron.simple/no-temp_property-wrapper/read-change-read'
 SIG_SIMPLE_RADIUS = 'TreeNeuron.simple/radius-not-in-CORE_DATA/read-edit-radius-read'
 SIG_ABA = 'temp_property/checksum-ABA/cache-written-under-lock-then-content-restored'
 SIG_TYPE = 'nodes.type(leafs,branch_points,simple)/inplace-parent_id-edit-then-clear(exclude=classify_nodes)'
+SIG_RR32 = 'reroot_skeleton(networkx)/int32-node-table/TypeError-after-graph-edit-leaves-table-indexed-by-node_id'
+SIG_F64 = 'core_md5/int64-ids-upcast-to-float64/edit-changes-only-ids-above-2**53-that-collide-in-float64'
 
 HASHED = ['node_id', 'parent_id', 'x', 'y', 'z']     # what the *property* says views depend on
 
@@ -54,6 +66,13 @@ class SpecInfo:
         self.drops = [x for x in d['drops'].split(',') if x]
         self.sound = d['sound'] == '1'
         self.flags = d['flags']
+        self.hashbits = int(d.get('hashbits', '53') or 53)
+        self.shared = [x for x in d.get('shared', '').split(',') if x]
+        self.editors = {}
+        for e_ in d.get('editors', '').split(','):
+            if e_:
+                fn, attr, det = e_.rsplit(':', 2)
+                self.editors[(fn.split('.')[-1], attr)] = det == '1'
         self.attrs = [v['attr'] for v in self.views]
         self.by_name = {v['name']: v for v in self.views}
         self.by_attr = {v['attr']: v for v in self.views}
@@ -69,7 +88,9 @@ def load_spec(ctx):
         d = gen_cache.extract(C.REPO)
         line = ('views=' + ','.join(f"{v['name']}:{v['attr']}:{int(v['wrapped'])}:{int(v['selfCopy'])}" for v in d['views'])
                 + ';temp=' + ','.join(d['tempAttr']) + ';core=' + d['coreTable'] + ':' + ','.join(d['coreCols'])
-                + ';drops=' + ','.join(d['getstateDrops']) + ';nocopy=;sound=0;flags=;excl=')
+                + ';drops=' + ','.join(d['getstateDrops']) + ';nocopy=;sound=0;flags=;excl='
+                + ';shared=' + ','.join(d['sharedOnCopy'])
+                + ';editors=' + ','.join(f"{e['fn']}:{e['attr']}:{int(e['detaches'])}" for e in d['editors']))
         return SpecInfo(line)
 
 
@@ -101,12 +122,14 @@ class Tracer:
         if df is None:
             return None
         try:
-            a = np.ascontiguousarray(df[HASHED].values.astype(np.float64))
-            t = np.ascontiguousarray(df[['node_id', 'parent_id']].values.astype(np.int64))
+            # column by column (much cheaper than a multi-column selection); ids exactly as int64, coordinates as float64
+            tb = b''.join(np.asarray(df[c].values, dtype=np.int64).tobytes() for c in ('node_id', 'parent_id'))
+            ab = b''.join(np.asarray(df[c].values, dtype=np.float64).tobytes() for c in ('x', 'y', 'z'))
         except Exception:
             return None      # table temporarily indexed by node_id etc.
-        hv = hashlib.sha1(a.tobytes() + str(a.shape).encode()).hexdigest()
-        ht = hashlib.sha1(t.tobytes() + str(t.shape).encode()).hexdigest()
+        shp = str(len(df)).encode()
+        hv = hashlib.sha1(tb + ab + shp).hexdigest()
+        ht = hashlib.sha1(tb + shp).hexdigest()
         v = self.cids.setdefault(hv, len(self.cids))
         t = self.tids.setdefault(ht, len(self.tids))
         return (v, t)
@@ -332,7 +355,8 @@ def canon_frame(m):
 
 def canon_nodes(df, cols=('node_id', 'parent_id', 'x', 'y', 'z', 'radius')):
     cols = [c for c in cols if c in df.columns]
-    rows = sorted(tuple(fnum(v) for v in r) for r in df[cols].values)
+    colv = [[int(v) for v in df[c].values] if c in ('node_id', 'parent_id') else [fnum(v) for v in df[c].values] for c in cols]
+    rows = sorted(zip(*colv)) if cols else []
     return (cols, rows)
 
 
@@ -360,6 +384,24 @@ def canon_value(name, val):
     raise KeyError(name)
 
 
+def canon_result(r, x_in):
+    """canonical form of what an operation returned (a neuron: its hashed columns; a query: its value)"""
+    if 'v' in VALUE:
+        v = VALUE['v']
+        if isinstance(v, dict):
+            return ('dict', sorted((int(k), fnum(w)) for k, w in v.items()))
+        if isinstance(v, pd.DataFrame):
+            return ('frame', canon_frame(v.astype(float)))
+        if isinstance(v, (list, tuple)):
+            return ('list', list(v))
+        if isinstance(v, (bool, np.bool_)):
+            return ('bool', bool(v))
+        return ('num', fnum(v))
+    if isinstance(r, TreeNeuron):
+        return ('neuron', canon_nodes(r.nodes, cols=HASHED))
+    return ('other', str(type(r)))
+
+
 def get_view(x, name):
     """('ok', canonical) or ('raise', exception type)"""
     try:
@@ -380,13 +422,19 @@ TYPE_VIEWS = ['leafs', 'branch_points', 'root']
 STEPS = [(1, 0, 0), (0, 1, 0), (0, 0, 1), (1, 2, 2), (2, 3, 6), (-1, 0, 0), (0, -2, 0), (2, -1, 2), (3, 0, 4), (0, 0, 0)]
 
 
-def gen_forest(rng, n, ntrees=1):
-    ids = rng.sample(range(1, 10 * n + 20), n)
+BIG_BASES = {'2^24': 2 ** 24, '2^31': 2 ** 31, '2^53': 2 ** 53, '2^62': 2 ** 62}
+
+
+def gen_forest(rng, n, ntrees=1, idbase=None, xyzbase=0):
+    if idbase is None:
+        ids = rng.sample(range(1, 10 * n + 20), n)
+    else:       # dense ids above the base: neighbouring ids exist
+        ids = [idbase + i for i in rng.sample(range(1, n + 3), n)]
     parents, xyz = [], []
     for i in range(n):
         if i < ntrees:
             parents.append(-1)
-            xyz.append([rng.randint(0, 20), rng.randint(0, 20), rng.randint(0, 20)])
+            xyz.append([xyzbase + rng.randint(0, 20), xyzbase + rng.randint(0, 20), xyzbase + rng.randint(0, 20)])
         else:
             p = rng.randrange(0, i) if rng.random() < 0.6 else i - 1
             parents.append(ids[p])
@@ -398,8 +446,9 @@ def gen_forest(rng, n, ntrees=1):
 
 
 def make_neuron(f, units=None):
-    xyz = np.array(f['xyz'], dtype=float).reshape(-1, 3)
-    df = pd.DataFrame({'node_id': np.array(f['ids'], dtype=np.int64), 'parent_id': np.array(f['parents'], dtype=np.int64),
+    idt, fdt = f.get('dtypes', ['int64', 'float64'])
+    xyz = np.array(f['xyz'], dtype=fdt).reshape(-1, 3)
+    df = pd.DataFrame({'node_id': np.array(f['ids'], dtype=idt), 'parent_id': np.array(f['parents'], dtype=idt),
                        'x': xyz[:, 0], 'y': xyz[:, 1], 'z': xyz[:, 2], 'radius': 0.01})
     return navis.TreeNeuron(df, units=units) if units else navis.TreeNeuron(df)
 
@@ -421,7 +470,11 @@ INPLACE_OPS = ['reroot', 'reroot_m', 'reroot_multi', 'prune_twigs', 'prune_twigs
                'downsample_m', 'downsample_inf', 'resample', 'resample_m', 'imul', 'idiv', 'iadd', 'isub', 'remove_nodes',
                'insert_nodes', 'rewire', 'heal', 'prune_depth', 'prune_strahler', 'longest', 'despike', 'smooth',
                'prune_distal', 'prune_proximal', 'dist_to_root', 'distal_to', 'dist_between', 'cut',
-               'despike_rev', 'despike5', 'despike_rev5', 'smooth5', 'convert_units']
+               'despike_rev', 'despike5', 'despike_rev5', 'smooth5', 'convert_units', 'segment_length', 'distal_to_all',
+               'classify']
+# operations implemented by a @lock_neuron function: they read the cached graphs under the lock
+LOCKED_OPS = ['reroot', 'reroot_m', 'reroot_multi', 'subset', 'subset_pf', 'dist_to_root', 'distal_to', 'distal_to_all',
+              'dist_between', 'segment_length', 'classify']
 COPY_OPS = ['reroot', 'prune_twigs', 'subset', 'downsample', 'resample', 'mul', 'div', 'add', 'sub', 'remove_nodes',
             'heal', 'prune_strahler', 'longest', 'cut', 'prune_depth', 'prune_twigs_m', 'reroot_m',
             'despike', 'despike_rev', 'despike_rev5', 'smooth', 'convert_units', 'prune_distal', 'prune_proximal']
@@ -429,7 +482,7 @@ COPY_OPS = ['reroot', 'prune_twigs', 'subset', 'downsample', 'resample', 'mul', 
 FAIL_OPS = ['fail_reroot_id', 'fail_reroot_tag', 'fail_reroot_method', 'fail_dist_between', 'fail_distal_to',
             'fail_subset', 'fail_subset_copy', 'fail_segment_length', 'fail_reroot_copy']
 EDITS = ['edit_xyz', 'edit_xyz', 'edit_radius', 'edit_parent', 'replace_same', 'replace_shuffle', 'replace_xyz',
-         'replace_drop_leaf', 'save', 'restore_replace', 'restore_inplace']
+         'replace_drop_leaf', 'save', 'restore_replace', 'restore_inplace', 'edit_parent_nb', 'edit_xyz_tiny', 'edit_subtree']
 
 
 def gen_events(rng, n_events, focus=None):
@@ -456,7 +509,7 @@ def gen_events(rng, n_events, focus=None):
         elif r < 0.88:
             evs.append(dict(ev=rng.choice(EDITS), a=a, b=b, c=c))
         elif r < 0.93:
-            evs.append(dict(ev='copy', follow=rng.random() < 0.6))
+            evs.append(dict(ev='copy', follow=rng.random() < 0.6, deep=rng.random() < 0.2))
         elif r < 0.97:
             evs.append(dict(ev='pickle'))
         else:
@@ -468,8 +521,13 @@ def pick(ids, r):
     return int(ids[r % len(ids)])
 
 
+VALUE = {}
+
+
 def apply_op(x, op, a, b, c, inplace):
-    """Run catalogue operation `op` on x.  Returns the result object (x itself when in place)."""
+    """Run catalogue operation `op` on x.  Returns the result object (x itself when in place); the value of a query
+    (dist_to_root, distal_to, dist_between, segment_length) is left in VALUE['v']."""
+    VALUE.pop('v', None)
     ids = x.nodes.node_id.values
     n = len(ids)
     kw = dict(inplace=inplace)
@@ -555,13 +613,28 @@ def apply_op(x, op, a, b, c, inplace):
     if op == 'prune_proximal':
         return x.prune_proximal_to(pick(ids, a), **kw) or x
     if op == 'dist_to_root':
-        GU.dist_to_root(x)
+        VALUE['v'] = GU.dist_to_root(x, weight='weight') if a % 2 else GU.dist_to_root(x)
         return x
     if op == 'distal_to':
-        GU.distal_to(x, pick(ids, a), pick(ids, b))
+        VALUE['v'] = GU.distal_to(x, pick(ids, a), pick(ids, b))
+        return x
+    if op == 'distal_to_all':
+        VALUE['v'] = GU.distal_to(x)
         return x
     if op == 'dist_between':
-        GU.dist_between(x, pick(ids, a), pick(ids, b))
+        VALUE['v'] = GU.dist_between(x, pick(ids, a), pick(ids, b))
+        return x
+    if op == 'segment_length':
+        # a linear child->parent run read from the TABLE (a property read would validate the caches first)
+        par = dict(zip((int(i) for i in ids), (int(p) for p in x.nodes.parent_id.values)))
+        seg = [pick(ids, a)]
+        while len(seg) < 2 + b % 3 and par.get(seg[-1], -1) >= 0 and par[seg[-1]] not in seg:
+            seg.append(par[seg[-1]])
+        VALUE['v'] = GU.segment_length(x, seg)
+        return x
+    if op == 'classify':
+        GU.classify_nodes(x, inplace=True)
+        VALUE['v'] = sorted((int(i), str(t)) for i, t in zip(x.nodes.node_id.values, x.nodes.type.values))
         return x
     if op == 'cut':
         res = navis.cut_skeleton(x, pick(ids, a))
@@ -603,6 +676,40 @@ def apply_fail(x, op, a, b):
     return 'no-raise'
 
 
+def f64_image(x):
+    """digest of the hashed columns after conversion to float64 (what `DataFrame.values` hands to the checksum)"""
+    df = x.__dict__.get('_nodes', None)
+    try:
+        a = np.ascontiguousarray(df[HASHED].values.astype(np.float64))
+    except Exception:
+        return None
+    return hashlib.sha1(a.tobytes() + str(a.shape).encode()).hexdigest()
+
+
+def table_maps(x):
+    ids = [int(i) for i in x.nodes.node_id.values]
+    par = dict(zip(ids, (int(p) for p in x.nodes.parent_id.values)))
+    kids = {}
+    for i, p_ in par.items():
+        kids.setdefault(p_, []).append(i)
+    return ids, par, kids
+
+
+def descendants(kids, n):
+    out, todo = set(), [n]
+    while todo:
+        k = todo.pop()
+        for c in kids.get(k, []):
+            if c not in out:
+                out.add(c)
+                todo.append(c)
+    return out
+
+
+class StopHistory(Exception):
+    """the node table is no longer a node table (a failed call left it half-edited): nothing further can be evaluated"""
+
+
 class Run:
     """One history on one real neuron, checked event by event."""
 
@@ -619,6 +726,10 @@ class Run:
         self.had_nonadm = False
         self.radius_dirty = False   # radius edited since `_simple` was computed
         self.aba_taint = self.type_taint = False
+        # the exact content changed but its float64 image did not (possible only with |id| > 2**53): open finding SIG_F64
+        self.f64_taint = False
+        self.prev_img = None
+        self.others = []            # bystanders: [obj, label, inherited signature, content, fresh neuron, memo]
 
     # -- model ---------------------------------------------------------------------------------
     def model(self):
@@ -637,7 +748,7 @@ class Run:
 
     def fresh(self):
         c = TR.content(self.x)
-        key = (c, tuple(fnum(v) for v in self.x.nodes.radius.values)) if 'radius' in self.x.nodes.columns else c
+        key = (c, self.x.nodes['radius'].values.tobytes()) if 'radius' in self.x.nodes.columns else c
         if key not in self.fresh_cache:
             self.fresh_cache = {key: (fresh_of(self.x), {})}
         return self.fresh_cache[key]
@@ -652,6 +763,12 @@ class Run:
     def check(self, label):
         ctx, case, x = self.ctx, self.case, self.x
         TR.pre(x)      # a trailing direct edit becomes a change event
+        cur = (TR.content(x), f64_image(x))
+        if self.prev_img is not None and None not in cur and None not in self.prev_img \
+                and cur[0] != self.prev_img[0] and cur[1] == self.prev_img[1]:
+            self.f64_taint = True
+            ctx.count('f64_collision', 'content changed, float64 image of the hashed columns did not')
+        self.prev_img = cur
         if id(x) in TR.rebased:
             TR.rebased.discard(id(x))
             self.checked = 0
@@ -666,7 +783,8 @@ class Run:
             impl = f"stale={int(sn[0])} lock={sn[1]} stamp={'?' if sn[2] is None else int(sn[2])} attrs={','.join(sn[3])}"
             mod = (f"stale={int(st['stale'])} lock={st['lock']} stamp={'?' if sn[2] is None else int(st['m'])} "
                    f"attrs={','.join(sorted(st['ents']))}")
-            ctx.corr(impl, mod, f'protocol state after primitive event #{i} `{toks[i]}` (during {label}); trace={" ".join(toks[max(0, i - 12):i + 1])}', case)
+            ctx.corr(impl, mod, f'protocol state after primitive event #{i} `{toks[i]}` (during {label}); trace={" ".join(toks[max(0, i - 12):i + 1])}', case,
+                     signature=self.k())
             ctx.count('primitive', toks[i].split(':')[0])
             if not st['adm']:
                 if toks[i].startswith('C'):
@@ -678,7 +796,9 @@ class Run:
                     ctx.corr(toks[i], 'a cache attribute of a generated view', 'write of an unknown cache attribute', case)
         for i in bad:
             if i >= self.checked:
-                ctx.corr(' '.join(toks[i:i + 4]), 'wrapper prims of the model', f'wrapper discipline at `{toks[i]}` (event #{i}, {label})', case)
+                ctx.corr(' '.join(toks[max(0, i - 3):i + 5]), 'wrapper / lock-entry prims of the model',
+                         f'wrapper discipline at `{toks[i]}` (event #{i}, {label}): the events around a property entry / a lock differ from '
+                         f'what the generated spec says the temp_property wrapper / lock_neuron do', case, signature=self.k())
         self.checked = len(toks)
         if not states:
             return
@@ -724,13 +844,57 @@ class Run:
         if st['t'] or stamp_cur:
             for name in TYPE_VIEWS:
                 got, want = get_view(x, name), self.fresh_view(name)
-                sig = SIG_TYPE if (self.type_taint and name != 'root') else None
+                sig = self.k(SIG_TYPE if (self.type_taint and name != 'root') else None)
                 ctx.oracle(got == want, f'`{name}` differs from a freshly constructed neuron after {label}: {got[1]} vs {want[1]}', case, signature=sig)
         else:
             ctx.count('type_oracle', 'skipped(in-place topology edit pending)')
+        self.check_others(label)
+
+    def k(self, sig=None):
+        return SIG_F64 if self.f64_taint else sig
+
+    # -- bystanders ------------------------------------------------------------------------------
+    def watch(self, obj, label):
+        """`obj` is left behind by the history: from now on its views must keep agreeing with its own table."""
+        if not isinstance(obj, TreeNeuron) or obj is self.x or any(o[0] is obj for o in self.others):
+            return
+        try:
+            if len(obj.nodes) == 0:
+                return
+        except Exception:
+            return
+        inherited = self.signature('graph', False, False)
+        self.others.append([obj, label, inherited, None, None, {}])
+        self.others = self.others[-3:]
+        self.ctx.count('bystander', label.split(' ')[0])
+
+    def check_others(self, label, all_views=False):
+        ctx, case = self.ctx, self.case
+        for o in self.others:
+            obj = o[0]
+            if obj is self.x:
+                continue
+            c = TR.content(obj)
+            if o[4] is None or c != o[3]:
+                o[3], o[4], o[5] = c, fresh_of(obj), {}
+            names = all_views if all_views else [self.spec.by_attr[a]['name'] for a in sorted(k_ for k_ in obj.__dict__ if k_ in TR.cache_attrs)]
+            for name in names:
+                nm = 'simple_topo' if name == 'simple' else name
+                got = get_view(obj, nm)
+                if nm not in o[5]:
+                    o[5][nm] = get_view(o[4], nm)
+                want = o[5][nm]
+                if got[0] == 'raise' and want[0] == 'raise':
+                    continue
+                ctx.oracle(got == want, f'bystander: `{name}` of the object left behind by [{o[1]}] differs from a neuron freshly constructed from '
+                                        f'its own node table after {label} was applied to the OTHER object (a cached object is shared between '
+                                        f'them and was edited in place): got {str(got)[:200]} fresh {str(want)[:200]}', case, signature=o[2])
+                ctx.count('bystander_read', name)
 
     def signature(self, view, predicted_stale, radius_only):
         """Known-finding signature of a failure, decided from what the *model* says about the history."""
+        if self.f64_taint:
+            return SIG_F64
         v = self.spec.by_name.get(view)
         if view == 'simple' and v and not v['wrapped'] and predicted_stale:
             return SIG_SIMPLE
@@ -774,6 +938,7 @@ class Run:
         self.x = y
         self.checked = 0
         self.fresh_cache = {}
+        self.prev_img = None
 
     def step(self, i, e):
         ctx, x = self.ctx, self.x
@@ -793,23 +958,67 @@ class Run:
         if kind == 'types':
             self.check(label)
             return
-        if kind == 'op':
+        if kind in ('op', 'opcopy'):
+            inplace = kind == 'op'
+            want = None
+            if e['op'] in LOCKED_OPS:
+                # the same call on a neuron freshly built from the table as it is NOW (before the operation)
+                try:
+                    ref = fresh_of(x)
+                    want = ('ok', canon_result(apply_op(ref, e['op'], e['a'], e['b'], e['c'], inplace), ref))
+                except Exception as ex:
+                    want = ('raise', type(ex).__name__)
+                sig = self.signature('graph', False, False)
+            r = None
+            objs0 = {a_: x.__dict__.get(a_) for a_ in ('_graph_nx', '_igraph')}
+            c0 = TR.content(x)
+            idt0 = str(x.nodes['node_id'].dtype) if 'node_id' in x.nodes.columns else '?'
             try:
-                r = apply_op(x, e['op'], e['a'], e['b'], e['c'], True)
-                if r is not x and isinstance(r, TreeNeuron):
-                    self.switch(r)
+                cur0 = (not x.__dict__.get('_stale', False)) and x.__dict__.get('_current_md5') == x.core_md5
+            except Exception:
+                cur0 = False
+            try:
+                r = apply_op(x, e['op'], e['a'], e['b'], e['c'], inplace)
+                got = ('ok', canon_result(r, x)) if want is not None else None
             except Exception as ex:
                 ctx.count('op_error', f"{e['op']}:{type(ex).__name__}")
+                got = ('raise', type(ex).__name__)
+            if 'node_id' not in x.nodes.columns:
+                # the call raised half-way: `node_id` is still the index, the cached graph already edited
+                known = (e['op'] in ('reroot', 'reroot_m', 'reroot_multi') and inplace and not navis.config.use_igraph
+                         and idt0 == 'int32' and got == ('raise', 'TypeError'))
+                ctx.oracle(False, f'`{e["op"]}` raised ({got}) during {label} and left the neuron without a usable node table (node_id moved into '
+                                  f'the index, columns {list(x.nodes.columns)}): every derived view now raises', self.case,
+                           signature=SIG_RR32 if known else None)
+                raise StopHistory()
+            if want is not None:
+                ctx.count('locked_result', f"{e['op']}:{'inplace' if inplace else 'copy'}:{got[0]}")
+                ctx.oracle(got == want, f'result of the @lock_neuron operation `{e["op"]}` ({"in place" if inplace else "on a copy"}) during {label} differs from '
+                                        f'the same call on a neuron freshly constructed from the same node table (the operation worked on a cached '
+                                        f'graph computed before a change): got {str(got)[:300]} fresh {str(want)[:300]}', self.case, signature=sig)
+            if inplace and r is x and cur0 and e['op'] in ('reroot', 'reroot_m') and TR.content(x) != c0:
+                # does the in-place editor work on the cached object itself or on an independent one? (generated `editors`)
+                used = '_igraph' if (navis.config.use_igraph and x.__dict__.get('_igraph') is not None) else '_graph_nx'
+                if objs0.get(used) is not None and x.__dict__.get(used) is not None and ('reroot_skeleton', used) in self.spec.editors:
+                    ctx.corr(x.__dict__[used] is not objs0[used], self.spec.editors[('reroot_skeleton', used)],
+                             f'reroot_skeleton re-binds `{used}` to an independent object before editing it ({label}): implementation vs generated `editors`',
+                             self.case, signature=self.k())
+                    ctx.count('editor_detaches', f'{used}:{x.__dict__[used] is not objs0[used]}')
+            if inplace:
+                if r is not None and r is not x and isinstance(r, TreeNeuron):
+                    old = x
+                    self.switch(r)
+                    self.watch(old, f'receiver of in-place {e["op"]} that returned a new object (event {i})')
+            elif isinstance(r, TreeNeuron) and r is not x:
+                if e.get('follow') and len(r.nodes):
+                    self.check(label + ' (original)')
+                    old = x
+                    self.switch(r)
+                    self.watch(old, f'original of {e["op"]}(inplace=False) (event {i})')
+                else:
+                    self.watch(r, f'result of {e["op"]}(inplace=False) (event {i})')
         elif kind == 'failop':
             ctx.count('failed_call', f"{e['op']}:{apply_fail(x, e['op'], e['a'], e['b'])}")
-        elif kind == 'opcopy':
-            try:
-                r = apply_op(x, e['op'], e['a'], e['b'], e['c'], False)
-                if e.get('follow') and isinstance(r, TreeNeuron) and r is not x and len(r.nodes):
-                    self.check(label + ' (original)')
-                    self.switch(r)
-            except Exception as ex:
-                ctx.count('op_error', f"{e['op']}:{type(ex).__name__}")
         elif kind == 'edit_xyz':
             col = 'xyz'[e['b'] % 3]
             x.nodes.loc[x.nodes.node_id == pick(ids, e['a']), col] += [1.0, -2.0, 4.0][e['c'] % 3]
@@ -824,6 +1033,38 @@ class Run:
                 lf = leafs[e['a'] % len(leafs)]
                 others = [int(i) for i in ids if int(i) != lf]
                 x.nodes.loc[x.nodes.node_id == lf, 'parent_id'] = others[e['b'] % len(others)]
+        elif kind == 'edit_parent_nb':
+            # move a leaf's parent link to a NEIGHBOURING id (old parent +-1..3): the two tables differ in one cell by < 4
+            _, par, kids = table_maps(x)
+            cands = [(lf, q) for lf in par if lf not in kids and par[lf] >= 0 for q in par
+                     if q != lf and q != par[lf] and abs(q - par[lf]) <= 3]
+            if cands:
+                lf, q = cands[e['a'] % len(cands)]
+                x.nodes.loc[x.nodes.node_id == lf, 'parent_id'] = q
+                ctx.count('edit_parent_nb', f'{"f64-collide" if float(q) == float(par[lf]) else "f32-collide" if np.float32(q) == np.float32(par[lf]) else "distinct"}')
+        elif kind == 'edit_subtree':
+            # re-attach an inner node (with its subtree) to a node outside that subtree
+            _, par, kids = table_maps(x)
+            inner = [i_ for i_ in par if i_ in kids and par[i_] >= 0]
+            if inner:
+                nd = inner[e['a'] % len(inner)]
+                out = [q for q in par if q != nd and q != par[nd] and q not in descendants(kids, nd)]
+                if out:
+                    x.nodes.loc[x.nodes.node_id == nd, 'parent_id'] = out[e['b'] % len(out)]
+        elif kind == 'edit_xyz_tiny':
+            # move one coordinate of a float64 table by a quarter of the float32 spacing at its value, along the edge to its parent
+            df = x.nodes
+            nr = df[df.parent_id >= 0]
+            if len(nr) and all(str(df[c_].dtype) == 'float64' for c_ in 'xyz'):
+                row = nr.iloc[e['a'] % len(nr)]
+                prow = df[df.node_id == row.parent_id]
+                if len(prow):
+                    diffs = [abs(float(row[c_]) - float(prow.iloc[0][c_])) for c_ in 'xyz']
+                    col = 'xyz'[int(np.argmax(diffs))]
+                    v = float(row[col])
+                    if abs(v) >= 1 and max(diffs) > 0:
+                        x.nodes.loc[x.nodes.node_id == row.node_id, col] = v + float(np.spacing(np.float32(abs(v)))) / 4
+                        ctx.count('edit_xyz_tiny', 'visible' if abs(v) >= 1024 else 'below canonical resolution')
         elif kind.startswith('replace'):
             df = x.nodes.copy()
             if kind == 'replace_shuffle':
@@ -846,26 +1087,38 @@ class Run:
                 for c in ('parent_id', 'x', 'y', 'z'):
                     x.nodes.loc[:, c] = self.saved[c].values
         elif kind == 'copy':
-            y = x.copy()
+            y = x.copy(deepcopy=True) if e.get('deep') else x.copy()
+            if not e.get('deep'):
+                def shares(a_, b_):
+                    return a_ is b_ or getattr(a_, '_graph', None) is b_
+                both = [a_ for a_ in ('_graph_nx', '_igraph') if x.__dict__.get(a_) is not None and y.__dict__.get(a_) is not None]
+                ctx.corr(sorted(a_ for a_ in both if shares(y.__dict__[a_], x.__dict__[a_])), sorted(a_ for a_ in both if a_ in self.spec.shared),
+                         f'which cached graph objects a copy shares with the original ({label}): implementation vs generated `sharedOnCopy`', self.case)
+                ctx.count('copy_shares', ','.join(sorted(a_ for a_ in both if shares(y.__dict__[a_], x.__dict__[a_]))) or '-')
             if e.get('follow'):
                 self.check(label + ' (original)')
                 self.switch(y)
+                self.watch(x, f'original of copy (event {i})')
+            else:
+                self.watch(y, f'copy (event {i})')
         elif kind == 'pickle':
             y = pickle.loads(pickle.dumps(x))
             TR.fork(x, y, 'P')
             self.switch(y)
+            self.watch(x, f'original of pickle round trip (event {i})')
         else:
             raise KeyError(kind)
         self.check(label)
 
     def finish(self):
         # the property at the end of the history: every view equals the fresh neuron's
-        views = list(ALL_VIEWS)
+        views = list(self.case.get('final') or ALL_VIEWS)
         random.Random(len(TR.hist[id(self.x)])).shuffle(views)
         if len(self.x.nodes) == 0:
             return
         for v in views:
             self.read(v, f'final read of {v}')
+        self.check_others('the end of the history', all_views=self.case.get('final') or ALL_VIEWS)
 
 
 _FASTCORE = navis.utils.fastcore
@@ -879,15 +1132,24 @@ def run_case(ctx, case, spec):
     navis.utils.fastcore = _FASTCORE if use_fc else None
     ctx.count('backend', case.get('backend', 'default'))
     try:
-        R = Run(ctx, case, spec)
-        R.check('construction')
-        for i, e in enumerate(case['events']):
-            R.step(i, e)
-        R.finish()
+        try:
+            R = Run(ctx, case, spec)
+        except (RecursionError, AttributeError, KeyError, TypeError) as ex:
+            # the cache protocol itself is broken to the point that a well-formed table cannot be turned into a neuron
+            ctx.oracle(False, f'constructing a TreeNeuron from a well-formed node table raised {type(ex).__name__}: {str(ex)[:120]} '
+                              f'(classification / checksum / lock protocol broken)', case)
+            return
+        try:
+            R.check('construction')
+            for i, e in enumerate(case['events']):
+                R.step(i, e)
+            R.finish()
+        except StopHistory:
+            ctx.count('history', 'stopped: node table destroyed by a failed call')
     finally:
         navis.config.use_igraph, navis.utils.fastcore = saved
     ctx.count('history_len', min(len(case['events']) // 4 * 4, 40))
-    ctx.count('trace_len', min(len(TR.hist[id(R.x)]) // 50 * 50, 1000))
+    ctx.count('trace_len', min(len(TR.hist.get(id(R.x), [])) // 50 * 50, 1000))
 
 
 # ------------------------------------------------------------------------------------------------
@@ -936,6 +1198,31 @@ CORPUS = [
                             R('segments'), dict(ev='pickle'), R('igraph'), R('graph')], name='copy-stale'),
 ]
 
+# finding `lock_neuron/no-staleness-check-before-lock` (fixed 4ae1633): warm graphs -> node 5 (with child 6) re-attached from 3
+# to 2 by an IN-PLACE edit -> reroot to 6 under the lock.  Run under all four back-end configurations.
+FL = dict(ids=[1, 2, 3, 4, 5, 6], parents=[-1, 1, 2, 3, 3, 5],
+          xyz=[[0, 0, 0], [1, 0, 0], [2, 0, 0], [3, 0, 0], [2, 1, 0], [2, 3, 0]])
+EDIT5 = dict(ev='edit_subtree', a=2, b=1, c=0)
+CORPUS += [
+    dict(forest=FL, events=[R('graph'), R('igraph'), EDIT5, dict(ev='op', op='reroot', a=5, b=0, c=0), R('graph'), R('segments')],
+         name='lock-stale-graph-reroot'),
+    dict(forest=FL, events=[R('graph'), R('igraph'), EDIT5, dict(ev='opcopy', op='reroot', a=5, b=0, c=0, follow=True), R('graph')],
+         name='lock-stale-graph-reroot-copy', backends=['default', 'nx']),
+    dict(forest=FL, events=[R('graph'), R('igraph'), R('geodesic_matrix'), dict(ev='edit_xyz', a=4, b=1, c=2),
+                            dict(ev='op', op='dist_between', a=5, b=0, c=0), dict(ev='op', op='dist_to_root', a=1, b=0, c=0),
+                            dict(ev='op', op='segment_length', a=5, b=1, c=0)], name='lock-stale-graph-dist', backends=['default', 'py-nx']),
+    # finding `reroot_skeleton(networkx)/edits-_graph_nx-in-place` (fixed 7a5fe2d): the copy holds a view of the graph
+    dict(forest=F6, events=[R('graph'), R('igraph'), dict(ev='copy', follow=False), dict(ev='op', op='reroot', a=5, b=0, c=0), R('graph')],
+         name='alias-copy-then-reroot-original'),
+    dict(forest=F6, events=[R('graph'), R('igraph'), dict(ev='copy', follow=True), dict(ev='op', op='reroot', a=5, b=0, c=0), R('graph')],
+         name='alias-copy-then-reroot-copy', backends=['nx', 'default']),
+    dict(forest=F6, events=[R('graph'), dict(ev='copy', follow=False), dict(ev='copy', follow=False), dict(ev='op', op='reroot_multi', a=5, b=2, c=0),
+                            R('graph'), dict(ev='op', op='reroot_m', a=4, b=0, c=0)], name='alias-two-copies-reroot-twice', backends=['nx', 'py-nx']),
+    # open finding SIG_RR32: int32 table (the dtype of the example neurons), networkx path
+    dict(forest=dict(F6, dtypes=['int32', 'float32']), backends=['nx', 'py-nx', 'default'],
+         events=[R('graph'), R('segments'), dict(ev='op', op='reroot', a=5, b=0, c=0), R('graph'), R('segments')], name='reroot-int32-table'),
+]
+
 
 F9 = dict(ids=[10, 11, 12, 13, 14, 15, 16, 17, 18], parents=[-1, 10, 11, 12, 13, 14, 12, 16, 17],
           xyz=[[0, 0, 0], [10, 0, 0], [20, 0, 0], [30, 120, 0], [40, 0, 0], [50, 0, 0], [20, 10, 0], [20, 20, 0], [20, 30, 0]])
@@ -957,13 +1244,74 @@ def sweep_cases(forests, ops_inplace, ops_copy, fail_ops):
                        events=warm + [dict(ev='failop', op=op, a=1, b=2, c=0), dict(ev='edit_xyz', a=1, b=1, c=2)] + warm)
 
 
+WARM_G = ['graph', 'igraph', 'segments', 'geodesic_matrix']
+FINAL_G = ['graph', 'igraph', 'segments', 'cable_length']
+NEURON_OPS = ['reroot', 'reroot_m', 'reroot_multi', 'subset', 'subset_pf']
+
+
+def lock_cases(forests, backends, edits, rotate=False):
+    """warm caches -> direct IN-PLACE edit of parent_id / xyz (no setter) -> a @lock_neuron operation as the very next
+    access (in place and not): its RESULT must equal the same call on a fresh neuron built from the edited table"""
+    warm = [dict(ev='read', view=v) for v in WARM_G]
+    k = 0
+    for fi, f in enumerate(forests):
+        for be in backends:
+            for op in LOCKED_OPS:
+                for kind in (['op', 'opcopy'] if op in NEURON_OPS else ['op']):
+                    for ed in ([edits[k % len(edits)]] if rotate else edits):
+                        k += 1
+                        yield dict(kind='history', forest=f, backend=be, name=f'lock-{op}-{kind}-{ed}-{be}-{fi}', final=FINAL_G,
+                                   events=warm + [dict(ev=ed, a=2 + k % 3, b=1 + k % 2, c=k % 3),
+                                                  dict(ev=kind, op=op, a=5 + k % 2, b=k % 3, c=1, follow=True)]
+                                   + [dict(ev='read', view=v) for v in ('graph', 'segments')])
+
+
+def alias_cases(forest, ops_backends):
+    """read graphs -> copy -> in-place operation on the ORIGINAL: the COPY's views must equal those of a fresh neuron built from
+    the copy's table; and the symmetric direction (operation on the copy, original watched)"""
+    warm = [dict(ev='read', view=v) for v in WARM_G]
+    for op, be in ops_backends:
+        for follow in (False, True):
+            yield dict(kind='history', forest=forest, backend=be, units='8 nm', final=FINAL_G,
+                       name=f'alias-{op}-{"on-copy" if follow else "on-original"}-{be}',
+                       events=warm + [dict(ev='copy', follow=follow), dict(ev='op', op=op, a=5, b=2, c=1),
+                                      dict(ev='read', view='graph'), dict(ev='read', view='igraph')])
+
+
+def bigid_cases(rng, quick):
+    """checksum resolution: ids above 2**24 / 2**31 / 2**53 / 2**62 (dense, so that neighbouring ids exist), int32/float32 and
+    int64/float64 tables; warm -> move a parent link to a neighbouring id / re-attach a subtree / move a coordinate by a
+    quarter of the float32 spacing -> read every graph-like view"""
+    warm = [dict(ev='read', view=v) for v in WARM_G + ['cable_length', 'small_segments']]
+    for base in BIG_BASES:
+        for ed in ('edit_parent_nb', 'edit_subtree'):
+            for rep_ in range(1 if quick else 3):
+                f = gen_forest(rng, rng.randint(6, 10), idbase=BIG_BASES[base])
+                yield dict(kind='history', forest=f, name=f'bigid-{base}-{ed}', final=FINAL_G, backend=rng.choice(list(BACKENDS)),
+                           events=warm + [dict(ev=ed, a=rng.randrange(100), b=rng.randrange(100), c=0)] + warm
+                           + [dict(ev='edit_parent_nb', a=rng.randrange(100), b=0, c=0), dict(ev='op', op='reroot', a=rng.randrange(100), b=0, c=0)]
+                           + warm[:3])
+    f = gen_forest(rng, 8, idbase=2 ** 24)
+    f['dtypes'] = ['int32', 'float32']
+    yield dict(kind='history', forest=f, name='bigid-2^24-int32-float32', backend='default',
+               events=warm + [dict(ev='edit_parent_nb', a=rng.randrange(100), b=0, c=0)] + warm)
+    for base in (None, 2 ** 31):
+        for rep_ in range(1 if quick else 3):
+            f = gen_forest(rng, rng.randint(5, 9), idbase=base, xyzbase=4096)
+            yield dict(kind='history', forest=f, name=f'tiny-move-{base}', final=FINAL_G, backend=rng.choice(list(BACKENDS)),
+                       events=warm + [dict(ev='edit_xyz_tiny', a=rng.randrange(100), b=0, c=0)] + warm
+                       + [dict(ev='edit_xyz_tiny', a=rng.randrange(100), b=0, c=0), dict(ev='op', op='dist_to_root', a=1, b=0, c=0)] + warm[:2])
+
+
 def run(ctx):
     spec = load_spec(ctx)
     ctx.extra['rule'] = ('a case is one history on a real TreeNeuron: a generated forest (3..25 nodes, shuffled ids and rows, 1-3 trees) and '
                          'a list of top-level events (reads of the derived views, catalogue operations in place / on copies, direct edits of '
                          'x.nodes in place and by replacement, save/restore of the table, copy, pickle); distinct = distinct JSON digest; '
                          'non-trivial = at least one change event and one read')
-    ctx.extra['assumptions'] = ['the content hash is injective (xxhash/md5 collisions are not modelled)',
+    ctx.extra['assumptions'] = ['the hash FUNCTION is injective (xxhash/md5 collisions are not modelled); what reaches it is tied to the source: '
+                                'Props.C02.hash_no_narrowing_cast / hash_input_injective over the generated spec, and the big-id / tiny-move '
+                                'streams exercise it on the real code',
                                 'a locked operation never restores exactly the content it started from after caching at an '
                                 'intermediate table (freshness hypothesis of history_fresh); histories that leave this envelope are '
                                 'counted under outside_envelope and still checked against the oracle']
@@ -971,7 +1319,8 @@ def run(ctx):
     if not spec.sound:
         ctx.notes.append('generated spec violates the source-level obligations (soundB = false)')
     for c in CORPUS:
-        for be in (['default', 'py-nx'] if c['name'].startswith(('aba', 'warm', 'type')) else ['default']):
+        for be in (c['backends'] if 'backends' in c else list(BACKENDS) if c['name'].startswith(('lock-', 'alias-')) else
+                   ['default', 'py-nx'] if c['name'].startswith(('aba', 'warm', 'type')) else ['default']):
             case = dict(kind='history', forest=c['forest'], events=c['events'], name=c['name'], backend=be)
             ctx.case(case)
             run_case(ctx, case, spec)
@@ -981,14 +1330,39 @@ def run(ctx):
         sw = list(sweep_cases([F9], r.sample(INPLACE_OPS, 8) + ['despike_rev'], r.sample(COPY_OPS, 4), r.sample(FAIL_OPS, 3)))
     else:
         sw = list(sweep_cases([F9, F6], INPLACE_OPS, COPY_OPS, FAIL_OPS))
+    other_ops = [o for o in INPLACE_OPS if o not in ('reroot', 'reroot_m', 'reroot_multi')]
+    rr = [(o, be) for o in ('reroot', 'reroot_m', 'reroot_multi') for be in BACKENDS]
+    if ctx.quick():
+        # every locked operation (in place / on a copy) under two of the four back-end configurations (the corpus runs the
+        # reproduction of the fixed defect under all four), rotating edit kind
+        lc = list(lock_cases([FL], list(BACKENDS), ['edit_subtree', 'edit_parent', 'edit_xyz'], rotate=True))
+        off = r.randrange(2)
+        per = len(lc) // 4
+        sw += [c for i, c in enumerate(lc) if ((i // per) + (i % per) + off) % 2 == 0]
+        rq = [('reroot', be) for be in BACKENDS] + [('reroot_m', 'nx'), ('reroot_m', 'py-nx'), ('reroot_multi', 'nx'), ('reroot_multi', 'default')]
+        sw += list(alias_cases(F9, rq + [(o, r.choice(list(BACKENDS))) for o in r.sample(other_ops, 6)]))
+    else:
+        sw += list(lock_cases([FL, F9], list(BACKENDS), ['edit_subtree', 'edit_parent', 'edit_xyz', 'edit_parent_nb']))
+        sw += list(alias_cases(F9, rr + [(o, be) for o in other_ops for be in BACKENDS]))
+        sw += list(alias_cases(F6, rr))
+    sw += list(bigid_cases(r, ctx.quick()))
     for case in sw:
+        ctx.count('stream', case['name'].split('-')[0])
         ctx.case(case)
         run_case(ctx, case, spec)
-    nhist = ctx.budget(48, 400)
+        if ctx.search_mode and ctx.has_new_failure('oracle'):
+            return
+    nhist = ctx.budget(36, 400)
     for k in range(nhist):
         big = (not ctx.quick()) and r.random() < 0.3
         n = r.randint(3, 25 if big else 12)
-        f = gen_forest(r, n, ntrees=r.choice([1, 1, 1, 2, 3]) if n > 4 else 1)
+        lab = r.random()
+        idbase = None if lab < 0.75 else (2 ** 24 if lab < 0.9 else 2 ** 31)
+        f = gen_forest(r, n, ntrees=r.choice([1, 1, 1, 2, 3]) if n > 4 else 1, idbase=idbase,
+                       xyzbase=4096 if r.random() < 0.15 else 0)
+        if idbase != 2 ** 31 and r.random() < 0.15:
+            f['dtypes'] = ['int32', 'float32']
+        ctx.count('labeling', 'small' if idbase is None else '>2^24' if idbase == 2 ** 24 else '>2^31')
         focus = r.choice([None, None, 'undo'])
         case = dict(kind='history', forest=f, events=gen_events(r, r.randint(4, 24 if not ctx.quick() else 14), focus),
                     backend=r.choice(['default'] * 5 + ['nx', 'py', 'py-nx']))
@@ -1006,6 +1380,15 @@ def search(ctx):
     histories biased to read / change / read."""
     spec = load_spec(ctx)
     r = ctx.rng
+    other_ops = [o for o in INPLACE_OPS if o not in ('reroot', 'reroot_m', 'reroot_multi')]
+    pre = list(lock_cases([FL, F9], list(BACKENDS), ['edit_subtree', 'edit_parent', 'edit_xyz', 'edit_parent_nb'])) \
+        + list(alias_cases(F9, [(o, be) for o in ('reroot', 'reroot_m', 'reroot_multi') for be in BACKENDS]
+                           + [(o, be) for o in other_ops for be in ('default', 'py-nx')])) + list(bigid_cases(r, False))
+    for case in pre:
+        ctx.case(case)
+        run_case(ctx, case, spec)
+        if ctx.has_new_failure('oracle'):
+            return
     for case in sweep_cases([F9, F6], INPLACE_OPS, COPY_OPS, FAIL_OPS):
         ctx.case(case)
         run_case(ctx, case, spec)
